@@ -17,6 +17,7 @@ structure DState where
   n : Nat
   st : CState
   updated : Bool      -- the executable was replaced: the harness-only raw methods are gone
+  desigs : List (Int × List Nat) := []   -- NeoFSAlphabet designations: (index they are stored under, keys)
 
 def parseKind (s : String) : Option Kind :=
   match s with
@@ -246,7 +247,9 @@ def stepLine (ds : Option DState) (line : String) : Option DState × List String
   | [] => (ds, [])
   | "case" :: _ =>
     match (attr ws "k").bind parseKind, (attr ws "n").bind (·.toNat?), (attr ws "v").bind (·.toInt?) with
-    | some k, some n, some v => (some ⟨k, n, ⟨v, []⟩, false⟩, [line.trimAscii.toString])
+    | some k, some n, some v =>
+      -- the role of the case line is designated during the set-up, long before the first operation
+      (some ⟨k, n, ⟨v, []⟩, false, [(0, parseIds ((attr ws "role").getD "-"))]⟩, [line.trimAscii.toString])
     | _, _, _ => (none, ["bad-case"])
   | "op" :: "load" :: _ =>
     match ds with
@@ -258,6 +261,17 @@ def stepLine (ds : Option DState) (line : String) : Option DState × List String
       else
         let d' := { d with st := { d.st with store := parseKV ((attr ws "kv").getD "-") } }
         (some d', [obs d' true q "load" ex])
+  | "op" :: "designate" :: _ =>
+    -- designateAsRole(NeoFSAlphabet, keys) executed while ledger.CurrentIndex() = h, i.e. in block h+1: stored under h+2
+    match ds with
+    | none => (ds, ["bad-line"])
+    | some d =>
+      match (attr ws "h").bind (·.toInt?) with
+      | some h =>
+        let d' := { d with desigs := d.desigs ++ [(h + 2, parseIds ((attr ws "role").getD "-"))] }
+        let ex := if d.kind == .alphabet then ledgerStr (parseLedger ws) ws else ""
+        (some d', [obs d' true (parseQueries ((attr ws "q").getD "-")) "designate" ex])
+      | none => (ds, ["bad-op"])
   | "op" :: "update" :: _ =>
     match ds with
     | none => (ds, ["bad-line"])
@@ -266,7 +280,7 @@ def stepLine (ds : Option DState) (line : String) : Option DState × List String
       match (attr ws "data").bind parseItem, (attr ws "h").bind (·.toInt?) with
       | some data, some h =>
         let env : Env := ⟨parseSigners ((attr ws "sig").getD "-"), List.range d.n,
-                          parseIds ((attr ws "role").getD "-"), h,
+                          roleInForce d.desigs (h + 1), h,   -- the contracts ask for CurrentIndex()+1
                           if d.kind == .alphabet then parseAlpha ws else {}⟩
         let nefOk := (attr ws "nef").getD "ok" == "ok"
         let br := branchOf d.kind d.st env data nefOk
